@@ -24,7 +24,7 @@ members to typed unknowns true of the replaced part.
 import CtyModel.Props.C11
 import CtyModel.Lemmas.CoversWeaken
 import CtyModel.Lemmas.C12Funcs
-import CtyModel.Lemmas.d12bElement
+import CtyModel.Lemmas.d12bSort
 namespace CtyModel
 namespace C12
 open Fn Std
@@ -613,6 +613,24 @@ theorem sound_element (o w oi wi r : Value) (hk : o.whollyKnown = true) (hki : o
     subst this
     exact D12b.element_implSound o w wi h1 hk hfo hfw hmo hmw hkw hc
 
+/-- **`sort`** (`AllowUnknown`): a list of strings that is not wholly known is answered by the unknown list of
+strings refined with the LENGTH BOUNDS of the argument's range — the number of members of a list known at
+the top, the bounds of an unknown list's own refinement, `[0, MaxInt]` otherwise; sorting keeps the length,
+so the concrete result lies within them. -/
+theorem sound_sort (E : Stdlib.Env) (o w r : Value) (hlt : o.ty = .list .string) (hk : o.whollyKnown = true)
+    (hmo : o.containsMarked = false) (hmw : w.containsMarked = false) (hs : D12b.noSet w.v = true)
+    (hfo : o.lenFits = true)
+    (hty : w.ty = o.ty ∨ w.ty.isDyn = true) (hc : CoversX w o = true)
+    (hrwf : Ty.wf r.ty = true) (hrefl : Covers r r = true)
+    (hr : (callUnrefined Stdlib.sortSpec Stdlib.sortType (Stdlib.sortImpl E) [o]).1 = .ok r) :
+    ∃ r', (callUnrefined Stdlib.sortSpec Stdlib.sortType (Stdlib.sortImpl E) [w]).1 = .ok r' ∧ Covers r' r = true :=
+  impl_soundness_lifts_to_call _ _ _ [o] [w] r (fun _ => D12b.typeMonoAt_of_eq rfl)
+    (fun t ht => by cases ht; rfl)
+    (by simpa using C12L.whollyKnown_isKnown hk) (by simpa using hmo) (by simpa using hmw)
+    (one_arg_cover hc) ⟨hty, trivial⟩ hrwf hrefl
+    (fun hp _ => D12b.sort_implSound E o w hlt (D12b.ty_kept_of_passes_nodyn (spec := Stdlib.sortSpec) rfl hp hty)
+      hk hmw hmo hs hfo hc) hr
+
 /-! ### the hypotheses are satisfiable -/
 
 example : TypeMonoW (C11.staticType (.list .string)) := static_typeMonoW _
@@ -768,5 +786,17 @@ example : ∃ r', (callUnrefined Stdlib.elementSpec Stdlib.elementType Stdlib.el
     (by decide) (by decide) (by decide) (by decide) (by decide) (Or.inl rfl) (Or.inl rfl) (by decide) (by decide)
     (by intro t h; have e : Stdlib.elementType [exLw, Value.intVal 2] = .ok .string := rfl; rw [e] at h; cases h; rfl)
     (by decide) (by decide) (by rfl)
+
+/-- `sort(["a"])` with the list unknown of 1 to 3 members, and with its member unknown: an unknown list whose
+length range holds 1 -/
+example : ∃ r', (callUnrefined Stdlib.sortSpec Stdlib.sortType (Stdlib.sortImpl {}) [⟨.list .string, .unk (.coll .f 1 3)⟩]).1 = .ok r' ∧
+    Covers r' ⟨.list .string, .seq [.s "a"]⟩ = true :=
+  sound_sort {} ⟨.list .string, .seq [.s "a"]⟩ ⟨.list .string, .unk (.coll .f 1 3)⟩ ⟨.list .string, .seq [.s "a"]⟩ rfl (by decide)
+    (by decide) (by decide) (by decide) (by decide) (Or.inl rfl) (by decide) (by decide) (by decide) (by rfl)
+example : ∃ r', (callUnrefined Stdlib.sortSpec Stdlib.sortType (Stdlib.sortImpl {}) [⟨.list .string, .seq [.unk .unref]⟩]).1 = .ok r' ∧
+    Covers r' ⟨.list .string, .seq [.s "a"]⟩ = true :=
+  sound_sort {} ⟨.list .string, .seq [.s "a"]⟩ ⟨.list .string, .seq [.unk .unref]⟩ ⟨.list .string, .seq [.s "a"]⟩ rfl (by decide)
+    (by decide) (by decide) (by decide) (by decide) (Or.inl rfl) (by decide) (by decide) (by decide) (by rfl)
+
 end C12
 end CtyModel
